@@ -4,7 +4,15 @@ import glob, json, os, shutil, subprocess, sys
 HERE = os.path.dirname(os.path.dirname(os.path.abspath(__file__)))
 sys.path.insert(0, HERE)
 head = subprocess.run(['git', '-C', '/repo', 'log', '--oneline', '-1'], capture_output=True, text=True).stdout.strip()
-for d in sorted(glob.glob('/tmp/mut/C*/[12]')):
+import argparse
+ap = argparse.ArgumentParser()
+ap.add_argument('--root', default='/tmp/mut')
+ap.add_argument('--offset', type=int, default=0)
+ap.add_argument('--round', type=int, default=1)
+ap.add_argument('--first', help='json {"Cxx/N": verdict of the checks as they stood when the seed arrived}')
+A = ap.parse_args()
+FIRST = json.load(open(A.first)) if A.first else {}
+for d in sorted(glob.glob(A.root + '/C*/[12]')):
     vp = os.path.join(d, 'verified.json')
     if not os.path.exists(vp):
         continue
@@ -12,7 +20,7 @@ for d in sorted(glob.glob('/tmp/mut/C*/[12]')):
     if not v.get('confirmed'):
         continue
     pid, n = d.split('/')[-2], d.split('/')[-1]
-    out = os.path.join(HERE, 'seeded', '%s-%s' % (pid, n))
+    out = os.path.join(HERE, 'seeded', '%s-%d' % (pid, int(n) + A.offset))
     shutil.rmtree(out, ignore_errors=True)
     os.makedirs(out)
     for fn in os.listdir(d):
@@ -29,6 +37,8 @@ for d in sorted(glob.glob('/tmp/mut/C*/[12]')):
     rebased = os.path.exists(os.path.join(d, 'patch.orig.diff'))
     json.dump({
         'property': pid,
+        'round': A.round,
+        'verdict_on_arrival': FIRST.get('%s/%s' % (pid, n)),
         'summary': meta.get('summary'),
         'needs_to_manifest': meta.get('needs_to_manifest'),
         'files_touched': meta.get('files_touched'),
